@@ -49,6 +49,17 @@ SPECS = [
       ["proofs/src/utils/helpers.rs::<C as ProcessedSerdeObject>::read", "curves/src/bls12_381/g1.rs::G1Projective::from_compressed"],
       "all buffers of length 0..=48, all oracle answers", "serde-read:g1-processed-contract", est=8, min_covers=2,
       oracle_scenario=["g1-decode-offsubgroup", "serde-processed"]),
+    # proof parsing: every G1 commitment of a proof goes through this reader (also registered under C03)
+    H("h_transcript::hashable_read_g1_checked", "C16.K.hashable.read.g1",
+      "<G1Projective as Hashable<blake2b>>::read (the reader of every proof commitment) never panics on short input and returns Ok only if uncompress succeeded AND the on-curve AND the subgroup oracle said yes",
+      ["proofs/src/transcript/implementors.rs::<G1Projective as Hashable<State>>::read", "curves/src/bls12_381/g1.rs::G1Projective::from_compressed"],
+      "all buffers of length 0..=48, all oracle answers", "hashable-read:g1-checked", est=10, min_covers=2,
+      oracle_scenario=["g1-decode-offsubgroup", "hashable"]),
+    H("h_transcript::hashable_read_fq_canonical", "C16.K.hashable.read.fq",
+      "<Fq as Hashable<blake2b>>::read (the reader of every proof scalar) returns Ok only on 32 bytes that blst's canonicity check accepted, Err otherwise; never panics",
+      ["proofs/src/transcript/implementors.rs::<Fq as Hashable<State>>::read", "curves/src/bls12_381/fq.rs::Fq::from_bytes_le"],
+      "all buffers of length 0..=32, all oracle answers", "hashable-read:fq-canonical", est=10, min_covers=2,
+      stubs=["blst::blst_scalar_fr_check (recording oracle)", "blst::blst_fr_from_uint64", "zeroize::optimization_barrier"]),
 ]
 
 
